@@ -196,7 +196,7 @@ def run_rational(ctx, rng):
     B_true = np.array([b @ np.linalg.inv(norm) for b in beta])
     # conditioning of the least-squares step itself: how far does a 1e-15 relative perturbation of the spectrum move the coefficients?
     try:
-        Ad_p, _ = plscf.pLSCF(Sy * (1 + 1e-15 * rng.standard_normal(Sy.shape)), dt, n, sgn_basf=sgn)
+        Ad_p, _ = plscf.pLSCF(Sy * (1 + 1e-15 * rng.standard_normal(Sy.shape)), dt, ordmax, sgn_basf=sgn)
         dprobe = float(np.max(np.abs(Ad_p[n - 1] - Ad[n - 1])) / np.max(np.abs(Ad[n - 1])))
     except np.linalg.LinAlgError:
         dprobe = np.inf
